@@ -22,7 +22,7 @@ func init() {
 				"Runtime.scope itself is replaced by a fresh scope literal. A new Runtime field that is written during execution but never reset fails the rule. (C10.putlast) Runtime.recover does not " +
 				"touch the runtime after Put, and Execute defers recover before it first writes to the runtime. (C10.ast) no function that is reachable from Execute but not from Set.parse stores to a field " +
 				"of Template, Set, Arguments or any AST node type (nor into slices/maps held there): executing never modifies the parsed template. (C10.pools) every pooled ranger's Setup assigns all " +
-				"fields of its struct on every path, the range arm never calls Range after cleanup, and getRanger hands out objects obtained from the pool. (C10.memo) the memoised struct field table consulted by resolveIndex is the published one on every path (first and later accesses of a type answer alike).",
+				"fields of its struct on every path, the range arm never calls Range after cleanup, and getRanger hands out objects obtained from the pool. (C10.memo) the memoised struct field table consulted by resolveIndex is the published one on every path (first and later accesses of a type answer alike). (C10.state) every store into storage that outlives a call — package-level variables, fields of the Set, its templates, its cache and its loaders — on a path reachable from Execute or GetTemplate belongs to a discipline another rule accounts for (the field-path memo, the object pools, the default cache, the parser filling the template it is building); any other such store is reported.",
 			NotDecided:  "determinism of map iteration; side effects of user functions and Renderers; addressable views of literal nodes handed to user functions (reflect.ValueOf(&node.Text).Elem()).",
 			Assumptions: []string{"sync.Pool hands an object to one goroutine at a time"},
 			Trusted:     commonTrusted,
@@ -50,6 +50,7 @@ func isPoolCall(info *types.Info, call *ast.CallExpr, method string) bool {
 
 func runC10(c *an.Ctx) {
 	memoRule(c, "C10.memo")
+	c10state(c)
 	p := c.P
 	info := p.Jet.TypesInfo
 	exec := c.Fn("C10.reset", "(*Template).Execute")
